@@ -24,7 +24,8 @@ META = {
         "component. Key functions never read the list being sorted; the key is lower-cased before every case-sensitive "
         "operation; sort() does not emulate reverse by sort-then-flip; sort_tracts forwards its key unchanged."
         " Round 7: the key normalisation pipeline is folded on legal keys with blanks / case / 'reverse'; the pattern and method table are located by use; an early return in front of the validating delegate is reported (VALIDATE); lower-casing before the unpacker."
-        ' Round 8: one sort pass per key, none skipped; a counter updated through type(self) gives subclasses their own.'),
+        ' Round 8: one sort pass per key, none skipped; a counter updated through type(self) gives subclasses their own.'
+        ' Round 9: piecemeal lower-casing after the case-insensitive match includes the direction letters.'),
     'families': ['TBL', 'RX-ANCHOR', 'SIB', 'PERM', 'FORWARD', 'DEADPARAM', 'SIB-DEFAULTS'],
 }
 
